@@ -121,7 +121,23 @@ func runC01(c *Ctx) {
 							leak = true
 						}
 					}
-					// nil channel path
+					// nil channel path (the channel value does not change: edges of other tests of the same value
+					// that say "non-nil" are infeasible on it)
+					nonNil := map[*ssa.BasicBlock]bool{}
+					for _, r := range referrers(ch) {
+						bo, ok := r.(*ssa.BinOp)
+						if !ok || !isNilConst(bo.Y) {
+							continue
+						}
+						for _, r2 := range referrers(bo) {
+							if iff, ok := r2.(*ssa.If); ok {
+								nonNil[succOnTruth(iff, bo.Op != token.EQL)] = true
+							}
+						}
+					}
+					relOrInfeasible := func(x ssa.Instruction) bool {
+						return isRel(x) || (nonNil[x.Block()] && len(x.Block().Preds) == 1)
+					}
 					for _, r := range referrers(ch) {
 						bo, ok := r.(*ssa.BinOp)
 						if !ok || !isNilConst(bo.Y) {
@@ -130,7 +146,7 @@ func runC01(c *Ctx) {
 						for _, r2 := range referrers(bo) {
 							if iff, ok := r2.(*ssa.If); ok {
 								nilBlk := succOnTruth(iff, bo.Op == token.EQL)
-								if _, can := reachFromBlock(nilBlk, nextRead, isRel); can {
+								if _, can := reachFromBlock(nilBlk, nextRead, relOrInfeasible); can {
 									leak = true
 								}
 							}
@@ -360,7 +376,7 @@ func runC01(c *Ctx) {
 	}
 
 	// ---------------------------------------------------------------- R4
-	c.rule("R4", "the id written to the wire is the registered id, at the id offset of the framing", 4)
+	c.rule("R4", "the id written to the wire is the registered id, at the id offset of the framing", 6)
 	if inserter != nil {
 		// inserter returns the inserted id as result 0
 		okRet := false
@@ -429,6 +445,21 @@ func runC01(c *Ctx) {
 					}
 				}
 				c.check(good, "wire-id-arg@"+funcName(f), instrPos(in), "writeQuery gets the id returned by the allocator", "writeQuery is called with "+exprStr(ci.Call.Args[2])+", not the id registered for this call")
+			})
+		}
+		// every Write on the connection of a pipelined/datagram connection object goes through writeQuery
+		// (a query written around it carries the caller's id, not the registered wire id)
+		for _, f := range fns {
+			fn := f
+			eachInstr(f, func(in ssa.Instruction) {
+				ci, ok := in.(*ssa.Call)
+				if !ok || !ci.Call.IsInvoke() || ci.Call.Method.Name() != "Write" {
+					return
+				}
+				if k, ok := loadedField(ci.Call.Value); !ok || k != T+"TraditionalDnsConn.c" {
+					return
+				}
+				c.check(fn == wq, "write-via-writeQuery@"+funcName(fn), instrPos(in), "the connection is written only inside writeQuery", "the connection is written outside writeQuery ("+funcName(fn)+"): the bytes sent carry the caller's own id instead of the registered wire id, so the reply is dispatched to whichever query owns that number")
 			})
 		}
 	}
@@ -512,6 +543,119 @@ func runC01(c *Ctx) {
 	// ---------------------------------------------------------------- R9
 	c.rule("R9", "the reply channel registered for a query is made by that registration, never recycled or shared", 2)
 	checkFreshReplyChan(c, lf)
+
+	// ---------------------------------------------------------------- R10
+	c.rule("R10", "the wire-id counter is a uint16 that advances by one for every id it hands out (an id just released is not handed out again at once)", 2)
+	{
+		nq := T + "TraditionalDnsConn.nextQid"
+		ws := p.whoWrites().byField[nq]
+		if len(ws) == 0 {
+			c.anchorMissing("writes of TraditionalDnsConn.nextQid")
+		}
+		// type
+		is16 := false
+		if n := p.Named(relTransport, "TraditionalDnsConn"); n != nil {
+			if st := structOf(n); st != nil {
+				for i := 0; i < st.NumFields(); i++ {
+					if st.Field(i).Name() == "nextQid" {
+						if b, ok := st.Field(i).Type().Underlying().(*types.Basic); ok && b.Kind() == types.Uint16 {
+							is16 = true
+						}
+					}
+				}
+			}
+		}
+		c.check(is16, "counter-type", 0, "nextQid is a uint16", "nextQid is not a uint16: the counter and the 16-bit wire id disagree")
+		for _, w := range ws {
+			key := "counter-advance@" + funcName(w.Fn)
+			// value = load(nextQid) + 1, and that load is the one whose value becomes the candidate id: the store follows
+			// the load unconditionally (same block)
+			good := false
+			why := "the counter is not advanced by exactly one from its loaded value"
+			if bo, ok := w.Val.(*ssa.BinOp); ok && bo.Op == token.ADD {
+				if n, ok := constInt(bo.Y); ok && n == 1 {
+					if ld, ok := bo.X.(*ssa.UnOp); ok && ld.Op == token.MUL {
+						if k, _ := fieldKey(ld.X); k == nq {
+							if ld.Block() == w.Instr.Block() {
+								good = true
+							} else {
+								why = "the counter is advanced only on some paths after it was read (e.g. only when the id is still in use): an id that was just released is handed out again at once, and a late reply to the query that owned it is delivered to the new owner"
+							}
+						}
+					}
+				}
+			}
+			c.check(good && w.Fn == inserter, key, instrPos(w.Instr), "nextQid = loaded nextQid + 1 right after the load, in the allocator", why)
+		}
+		// every load of the counter in the allocator is followed by the advance in its block
+		if inserter != nil {
+			eachInstr(inserter, func(in ssa.Instruction) {
+				ld, ok := in.(*ssa.UnOp)
+				if !ok || ld.Op != token.MUL {
+					return
+				}
+				if k, _ := fieldKey(ld.X); k != nq {
+					return
+				}
+				adv := false
+				for _, x := range ld.Block().Instrs {
+					if st, ok := x.(*ssa.Store); ok {
+						if k, _ := fieldKey(st.Addr); k == nq {
+							adv = true
+						}
+					}
+				}
+				c.check(adv, "counter-load-advances@"+funcName(inserter), instrPos(in), "each read of the counter is followed by its advance", "the counter is read without being advanced in the same step")
+			})
+		}
+	}
+
+	// ---------------------------------------------------------------- R11
+	c.rule("R11", "state an exchange builds per call is private to the call: the DoH request URL written by an exchange is a fresh allocation made in that call", 1)
+	if ex := c.fn(relDoh, "Upstream", "exchange"); ex != nil {
+		c.see(ex)
+		n := 0
+		eachInstr(ex, func(in ssa.Instruction) {
+			st, ok := in.(*ssa.Store)
+			if !ok {
+				return
+			}
+			fa, ok := st.Addr.(*ssa.FieldAddr)
+			if !ok {
+				return
+			}
+			if k, _ := fieldKey(fa); !strings.HasPrefix(k, "net/url.URL.") {
+				return
+			}
+			n++
+			key := "private-url@" + funcName(ex) + ":" + fieldTail(func() string { k, _ := fieldKey(fa); return k }())
+			// base pointer: a fresh Alloc, or a load of Request.URL that a dominating store filled with a fresh Alloc
+			fresh := false
+			switch b := fa.X.(type) {
+			case *ssa.Alloc:
+				fresh = true
+			case *ssa.UnOp:
+				if k, _ := fieldKey(b.X); k == "net/http.Request.URL" {
+					eachInstr(ex, func(y ssa.Instruction) {
+						s2, ok := y.(*ssa.Store)
+						if !ok {
+							return
+						}
+						if k2, _ := fieldKey(s2.Addr); k2 != "net/http.Request.URL" {
+							return
+						}
+						if _, isAlloc := s2.Val.(*ssa.Alloc); isAlloc && instrDominates(s2, in) {
+							fresh = true
+						}
+					})
+				}
+			}
+			c.check(fresh, key, instrPos(in), "the URL written is a fresh allocation of this call", "the exchange writes the query into a URL object that is shared with the request template (Request.WithContext is a shallow copy): concurrent exchanges overwrite each other's query string and receive each other's replies")
+		})
+		if n == 0 {
+			c.anchorMissing("store of the DoH query string into the request URL")
+		}
+	}
 }
 
 // checkIdleExclusive implements C01-R6 / C09-R7.
